@@ -17,6 +17,15 @@ func init() {
 			// YPrefixOfX: y is not built from its descriptor but as x[:n] — the same backing array as x (aliased slices of
 			// different length are distinct JSON values); the descriptor of y still says what y holds, for the model
 			YPrefixOfX *int `json:"yPrefixOfX"`
+			// YFirstOfX (default 0 = off): x must be a non-nil pointer to a Go array (*[N]T, N >= 1); y is not built from its
+			// descriptor but as the pointer to the FIRST ELEMENT of the array x points to, taken k times (k = 1: &(*x)[0], a *T;
+			// k = 2: &(*x)[0][0] for *[N][M]T, …) — the same address as x under another pointer type, a container and its first
+			// member being different JSON values. The descriptor of y still says what y holds (checked with DeepEqual on the
+			// pointees), for the model.
+			YFirstOfX int `json:"yFirstOfX"`
+			// WrapBoth (default 0): after any aliasing, x and y are each boxed in that many levels of []any{·} (the same position
+			// inside two containers).
+			WrapBoth int `json:"wrapBoth"`
 		}
 		if err := json.Unmarshal(args, &a); err != nil {
 			return nil, err
@@ -35,6 +44,28 @@ func init() {
 				return nil, fmt.Errorf("yPrefixOfX: x is not a slice of that length")
 			}
 			y = xv.Slice(0, *a.YPrefixOfX).Interface()
+		}
+		if a.YFirstOfX > 0 {
+			cur := reflect.ValueOf(x)
+			if cur.Kind() != reflect.Pointer || cur.IsNil() {
+				return nil, fmt.Errorf("yFirstOfX: x is not a non-nil pointer")
+			}
+			cur = cur.Elem()
+			for i := 0; i < a.YFirstOfX; i++ {
+				if cur.Kind() != reflect.Array || cur.Len() == 0 {
+					return nil, fmt.Errorf("yFirstOfX: not a non-empty Go array at level %d", i)
+				}
+				cur = cur.Index(0)
+			}
+			alias := cur.Addr()
+			yv := reflect.ValueOf(y)
+			if !yv.IsValid() || yv.Type() != alias.Type() || yv.IsNil() || !reflect.DeepEqual(yv.Elem().Interface(), alias.Elem().Interface()) {
+				return nil, fmt.Errorf("yFirstOfX: the first member is not what the descriptor of y says")
+			}
+			y = alias.Interface()
+		}
+		for i := 0; i < a.WrapBoth; i++ {
+			x, y = []any{x}, []any{y}
 		}
 		return map[string]any{"outcome": "ok", "equal": jsonschema.Equal(x, y), "equal_rev": jsonschema.Equal(y, x)}, nil
 	})
